@@ -1552,3 +1552,33 @@ def split_chained_assignments(trees):
             fn.body = _map_blocks(fn.body, f)
         ast.fix_missing_locations(tree)
     return n
+
+
+# --------------------------------------------------------------------------------------------- append loops
+def extend_form(trees):
+    """`for T in IT: L.append(T)` (nothing else in the body, T a plain name not used afterwards) is `L.extend(IT)`"""
+    n = 0
+
+    def f(stmts, fn):
+        nonlocal n
+        out = []
+        for s in stmts:
+            if isinstance(s, ast.For) and not s.orelse and isinstance(s.target, ast.Name) and len(s.body) == 1 \
+                    and isinstance(s.body[0], ast.Expr) and isinstance(s.body[0].value, ast.Call):
+                c = s.body[0].value
+                if isinstance(c.func, ast.Attribute) and c.func.attr == "append" and len(c.args) == 1 and not c.keywords \
+                        and isinstance(c.args[0], ast.Name) and c.args[0].id == s.target.id and _stable(c.func.value) \
+                        and _enclosing_uses_ok(fn, s, {s.target.id}):
+                    new = ast.Expr(value=ast.Call(func=ast.Attribute(value=c.func.value, attr="extend", ctx=ast.Load()),
+                                                  args=[s.iter], keywords=[]))
+                    out.append(ast.copy_location(new, s))
+                    ast.fix_missing_locations(out[-1])
+                    n += 1
+                    continue
+            out.append(s)
+        return out
+    for tree in trees.values():
+        for parts, fn in alpha.walk_functions(tree):
+            fn.body = _map_blocks(fn.body, lambda st, fn=fn: f(st, fn))
+        ast.fix_missing_locations(tree)
+    return n
